@@ -384,8 +384,7 @@ Ret ==
           \* the callers of the per-recipient path (LMTPData, the queue) commit whatever the statuses were
           [] run.op = "body" -> drv' = [drv EXCEPT !.ph = "fin",
                                                    !.fin = IF ok \/ cfg.path = "na" THEN "commit" ELSE "abort"]
-          \* a committed queue goes on to deliver the message to its own target
-          [] OTHER -> drv' = [drv EXCEPT !.ph = IF cfg.kind = "qpipe" /\ tg["T1"] = "committed" THEN "relay" ELSE "end"]
+          [] OTHER -> drv' = [drv EXCEPT !.ph = "end"]
   /\ UNCHANGED <<cfg, k, metaQ, used, tg, devs, delays, hist>>
 
 (* the remote target is handed a message that is already flagged (by the queue) *)
@@ -401,15 +400,17 @@ RemoteRcpt ==
   /\ drv' = [drv EXCEPT !.ph = "end"]
   /\ UNCHANGED <<cfg, k, metaQ, used, tg, run, devs, delays, hist>>
 
-(* the queue behind D1 hands the message, with the metadata it keeps, to its own target *)
+(* the committed queue behind D1 hands the message, with the metadata it keeps, to its own target *)
+(* (on its own goroutine: any time after its Commit)                                               *)
 Relay ==
-  /\ drv.ph = "relay" /\ run.st = "idle"
+  /\ cfg.kind = "qpipe" /\ tg["T1"] = "committed"
   /\ obs' = ObsTgt(obs, cfg, "Q1", "relay", "", "ok", metaQ)
-  /\ drv' = [drv EXCEPT !.ph = "end"]
-  /\ UNCHANGED <<cfg, k, metaQ, used, tg, run, devs, delays, hist>>
+  /\ tg' = [tg EXCEPT !["T1"] = "relayed"]
+  /\ UNCHANGED <<cfg, drv, k, metaQ, used, run, devs, delays, hist>>
 
 End ==
   /\ drv.ph = "end" /\ run.st = "idle"
+  /\ ~(cfg.kind = "qpipe" /\ tg["T1"] = "committed")
   /\ obs' = ObsEnd(obs, cfg)
   /\ drv' = [drv EXCEPT !.ph = "done"]
   /\ IF Gen THEN PrintT(<<"BEH", ToJson([cfg |-> cfg, calls |-> hist])>>) ELSE TRUE
@@ -432,7 +433,7 @@ NoViolation == obs.viol = {}
 NoDevs      == Devs = {} => devs = {}
 TypeOK == /\ run.st \in {"idle", "grp", "mod", "tgt", "ret"}
           /\ k.reg \subseteq Checks
-          /\ \A t \in Targets : tg[t] \in {"none", "open", "committed", "done"}
+          /\ \A t \in Targets : tg[t] \in {"none", "open", "committed", "relayed", "done"}
 \* every delivery that was opened is finished when the message is over
 Closed == drv.ph = "done" => \A t \in Targets : tg[t] # "open"
 \* Termination: every step consumes a pending call, a target operation, a command result or a
